@@ -256,12 +256,23 @@ func (s *punchSrv) snapshot(res *vh.Result, helloOf ...metaT) {
 			res.Oracle = append(res.Oracle, "the puncher wrote a packet that is not a punch packet of any attempt: "+vh.Hex(w.data))
 		}
 	}
-	reg := realm.VerifC20Registry(s.conn)
-	var regS, pmS []string
-	for id, m := range reg {
-		regS = append(regS, sx(id)+"/"+sx(m.Nonce))
+	entries, why := realm.VerifC20Registry(s.conn)
+	if why != "" {
+		res.Oracle = append(res.Oracle, "harness: the conn's attempt table cannot be read (representation changed?): "+why)
 	}
-	pids := realm.VerifC20PuncherIDs(s.p)
+	reg := map[string]realm.PunchMetadata{}
+	var regS, pmS []string
+	for _, e := range entries {
+		regS = append(regS, sx(e.ID)+"/"+sx(e.Meta.Nonce))
+		if _, dup := reg[e.ID]; dup {
+			res.Oracle = append(res.Oracle, fmt.Sprintf("attempt id %q is registered more than once on the conn (a removal will leave a stale entry that keeps diverting)", e.ID))
+		}
+		reg[e.ID] = e.Meta
+	}
+	pids, why2 := realm.VerifC20PuncherIDs(s.p)
+	if why2 != "" {
+		res.Oracle = append(res.Oracle, "harness: the puncher's attempt table cannot be read (representation changed?): "+why2)
+	}
 	for _, id := range pids {
 		pmS = append(pmS, sx(id))
 	}
